@@ -41,6 +41,7 @@ type c16Case struct {
 	SA    bool   `json:"sa"`
 	Tree  string `json:"tree"`  // cprobe tree spec of the program
 	After int    `json:"after"` // extra delay (ms) after the point is reached before the kill
+	Drop  bool   `json:"drop"`  // the controller drops to an unprivileged uid after Build (parent-death signal not deliverable)
 }
 
 type c16Obs struct {
@@ -55,6 +56,7 @@ type c16Obs struct {
 	Host       []rawEv  `json:"host"`
 	Init       []rawEv  `json:"init"`
 	Setup      string   `json:"setup,omitempty"`
+	InitSays   string   `json:"init_says,omitempty"` // what init wrote to stderr besides events (diagnostic)
 }
 
 func scanNonce(nonce string) []int {
@@ -197,6 +199,13 @@ func c16One(self, probe string, c c16Case) c16Obs {
 	}
 	o.Host = readEvFile(filepath.Join(dir, "host.ev"), "")
 	o.Init = dropBuildPhase(readEvFile(filepath.Join(dir, "init.err"), "@@VERIF "))
+	if b, err := os.ReadFile(filepath.Join(dir, "init.err")); err == nil {
+		for _, l := range strings.Split(string(b), "\n") {
+			if l != "" && !strings.HasPrefix(l, "@@VERIF ") && len(o.InitSays) < 600 {
+				o.InitSays += l + " | "
+			}
+		}
+	}
 	if !o.Ready && o.Setup == "" {
 		o.Setup = "not ready"
 	}
@@ -295,6 +304,17 @@ func c16Ctl(args []string) error {
 	for _, p := range childrenOf(os.Getpid()) {
 		if !before[p] {
 			initPid = p
+		}
+	}
+	if c.Drop {
+		// from now on the kernel may refuse to deliver PR_SET_PDEATHSIG to the (root-owned) init: only the
+		// end of the control stream is left to tell it that its controller is gone
+		os.Chmod(dir, 0777)
+		if err := syscall.Setresgid(65534, 65534, 65534); err != nil {
+			return err
+		}
+		if err := syscall.Setresuid(65534, 65534, 65534); err != nil {
+			return err
 		}
 	}
 	// record host events from now on (the model starts after conf)
